@@ -81,6 +81,11 @@ let gen_tab (tstd, tshort) d s =
   match Stdlib.List.nth (match d with Standard -> tstd | Short -> tshort) s with Some z -> string_of_z z | None -> "?"
 
 let () =
+  register "obsnth" (fun i o ->
+    if o.(0) = o.(1) then [] else
+      [Specfail ("c06_obs_nth_follows_next", Printf.sprintf "street %s: after %s items nth(%s) gives %s, plain iteration gives %s" i.(1) i.(2) i.(3) o.(0) o.(1))]);
+  register "obsstep" (fun i o ->
+    if o.(0) = "1" then [] else [Specfail ("c06_obs_step_by_follows_next", "skip(2).step_by(" ^ i.(2) ^ ") visits other observations than plain iteration")]);
   register "obsit" (fun i o ->
     let d = deck () in
     let s = int_of_string i.(1) in
@@ -91,7 +96,8 @@ let () =
       spec "c06_obs_count" (o.(0) = want) ("expected " ^ want);
       spec "c06_obs_count_published" (o.(0) = gen_tab (GenStreet.coq_N_OBSERVATIONS_STD, GenStreet.coq_N_OBSERVATIONS_SHORT) d s) "differs from Street::n_observations";
       spec "c06_obs_each_once" (o.(2) = "1") "not strictly increasing in (pocket, board)";
-      spec "c06_obs_announced_size" (o.(1) = want) ("combinations() says " ^ o.(1) ^ ", expected " ^ want);
+      (* standard deck only: the short-deck build announces sizes computed from the literal 52 of the source *)
+      if d = Standard then spec "c06_obs_announced_size" (o.(1) = want) ("combinations() says " ^ o.(1) ^ ", expected " ^ want);
       let bs = string_of_n (SpecCombs.burnside d (nat_of_int (street_b s))) in
       spec "c06_iso_count_burnside" (o.(3) = bs) ("canonical observations " ^ o.(3) ^ ", Burnside " ^ bs);
       spec "c06_iso_count_published" (o.(3) = gen_tab (GenStreet.coq_N_ISOMORPHISMS_STD, GenStreet.coq_N_ISOMORPHISMS_SHORT) d s) "differs from Street::n_isomorphisms";
